@@ -18,8 +18,8 @@ TU = 65536
 MODE = os.environ.get('VERIF_MODE', 'nrt')
 
 
-def E(k, r='', n=0, secs=0, beats=0, tag='', sk='', stamp=0, subk='-', sub=0, sub2=0):
-    return dict(k=k, r=r, n=n, secs=secs, beats=beats, tag=tag, sk=sk, stamp=stamp, subk=subk, sub=sub, sub2=sub2)
+def E(k, r='', n=0, secs=0, beats=0, tag='', sk='', stamp=0, subk='-', sub=0, sub2=0, r2=''):
+    return dict(k=k, r=r, n=n, secs=secs, beats=beats, tag=tag, sk=sk, stamp=stamp, subk=subk, sub=sub, sub2=sub2, r2=r2)
 
 
 D3 = TU // 4       # nk = 3: a bundle nested in the nested bundle, a quarter second after it
@@ -104,6 +104,7 @@ class Runner:
         self.nested = {}
         self.conds = {}
         self.addr = addr
+        self.point = lambda: None   # RT programs with "points": a preemption point before every instruction of a body
         seeds = [i['a'] for body in prog['routines'].values() for i in body if i['op'] in ('K', 'KC')]
         self.lookup = {}
         for s in seeds:
@@ -142,6 +143,7 @@ class Runner:
             try:
                 self.obs(name, 0, clock)
                 for i in instrs:
+                    self.point()
                     if i['op'] in ('S', 'M'):
                         self.send(name, i)
             finally:
@@ -207,6 +209,7 @@ class Runner:
             n = 0
             self.obs(name, n, clock)
             for i in instrs:
+                self.point()
                 op = i['op']
                 if op == 'Y':
                     me, clock = yield number(i['a'] / TU, i['b'])
@@ -399,6 +402,8 @@ def run_rt(S, prog):
     base = main.elapsed_time()
     addr = NetAddr('127.0.0.1', 57110)
     R = Runner(prog, base, addr)
+    if prog.get('points'):
+        R.point = S.point
     offset = clk.SystemClock._elapsed_osc_offset
     base_units = exact(base, 'base')
 
@@ -416,7 +421,11 @@ def run_rt(S, prog):
                     sub2 = tag2units(e2[1][1][0] - offset, 0) - base_units
             who = R.cur()
             if who == 'user':
-                R.ev.append(E('ubndl', r=who, tag=els[0][1][0], sk=sk, stamp=stamp, secs=R.user_now))
+                # r2: the routine a clock thread happens to be inside of at this instant (the library's current
+                # thread is one global)
+                tt = main.current_tt
+                r2 = ([k for k, v in R.routines.items() if v is tt] + [''])[0]
+                R.ev.append(E('ubndl', r=who, tag=els[0][1][0], sk=sk, stamp=stamp, secs=R.user_now, r2=r2))
             else:
                 R.ev.append(E('bndl', r=who, tag=els[0][1][0], sk=sk, stamp=stamp, subk=subk, sub=sub, sub2=sub2))
         else:
@@ -462,6 +471,14 @@ def run_rt(S, prog):
                     R.send('user', dict(i, op='S'))
                 finally:
                     R.in_user = False
+            elif i['op'] == 'UP':
+                # a plain thread plays a routine without naming a clock: SystemClock, at the physical time of the call
+                u = exact(main.elapsed_time() - base, 'user now')
+                R.ev.append(E('uplay', r=i['s'], secs=u))
+                R.routine(i['s']).play()
+                if exact(main.elapsed_time() - base, 'user now') != u:
+                    R.skip = 'time advanced inside a user-thread play()'      # cannot be written down: skipped
+                R.ev.append(E('uplayed', r=i['s']))
             elif i['op'] == 'IN':
                 R.recv_now[i['s']] = exact(main.elapsed_time() - base, 'recv now')
                 main._osc_interface._handle_request(mk_dgram(i, offset, base_units), ('127.0.0.1', 57110))
@@ -478,7 +495,7 @@ def run_rt(S, prog):
             resp.append(OscFunc(on_recv, i['s']))
         with main._main_lock:       # the program's start is one instant
             R.run_main()
-        uops = [i for i in prog['main'] if i['op'] in ('U', 'IN')]
+        uops = [i for i in prog['main'] if i['op'] in ('U', 'IN', 'UP')]
         if uops:
             S.spawn(lambda: user_thread(uops), 'user')
         S.settle(horizon=None)
@@ -498,7 +515,7 @@ def run_rt(S, prog):
             except Exception:
                 pass
         S.settle(horizon=S.now)
-    out['ev'] = R.ev
+    out['ev'] = [E('nondyadic', tag=R.skip)] if getattr(R, 'skip', None) else R.ev
     return out
 
 
